@@ -170,9 +170,16 @@ struct Damage {
     got: String,
     /// the change was found after the stream had been dropped, not after a `next()`
     after_drop: bool,
+    /// the change was found right after a poll of `next()` that answered `Pending` and during which the transport
+    /// delivered nothing (no byte has arrived since the damaged item was handed out)
+    idle_poll: bool,
 }
 
 const LATER_FRAME: &[u8] = b"{\"parameters\":{\"tag\":999999,\"text\":\"a reply of a later exchange, long enough to cover the first items of the burst: 0123456789 0123456789 0123456789 0123456789 0123456789\"}}\0";
+
+thread_local! {
+    static IDLE_POLLS: std::cell::Cell<u64> = const { std::cell::Cell::new(0) };
+}
 
 /// Returns Ok(number of re-reads) or the first damaged item.
 fn execute(case: &Case) -> Result<(usize, bool), Damage> {
@@ -205,6 +212,7 @@ fn execute(case: &Case) -> Result<(usize, bool), Damage> {
     let mut conn = Connection::new(VSocket(wire.clone()));
     let n = case.replies.len();
     let mut rereads = 0usize;
+    let mut idle_polls = 0usize;
     let mut read_while_holding = false;
     if case.warmup > 0 {
         // grow the receive buffer first (buffers never shrink), so that one read can deliver the
@@ -234,7 +242,7 @@ fn execute(case: &Case) -> Result<(usize, bool), Damage> {
                             let mut tmp = [0u8; 64];
                             let k = now.len().min(64);
                             tmp[..k].copy_from_slice(&now.as_bytes()[..k]);
-                            return Err(Damage { read_while_holding, item: i, after_obtaining: held.len() - 1, expected: copy.clone(), got: vnet::json::show(&tmp[..k]), after_drop: dropped });
+                            return Err(Damage { read_while_holding, item: i, after_obtaining: held.len() - 1, expected: copy.clone(), got: vnet::json::show(&tmp[..k]), after_drop: dropped, idle_poll: false });
                         }
                     }
                 };
@@ -252,6 +260,19 @@ fn execute(case: &Case) -> Result<(usize, bool), Damage> {
                         }
                         if let core::task::Poll::Ready(x) = vnet::poll_once(core::pin::pin!(stream.next()).as_mut()) {
                             break x;
+                        }
+                        // the stream had nothing yet: asking must not have touched what it handed out before
+                        if wire.borrow().bytes_delivered == delivered_before {
+                            for (i, (it, copy)) in held.iter().enumerate() {
+                                let now: &str = get(it);
+                                if now.as_bytes() != copy.as_bytes() {
+                                    let mut tmp = [0u8; 64];
+                                    let k = now.len().min(64);
+                                    tmp[..k].copy_from_slice(&now.as_bytes()[..k]);
+                                    return Err(Damage { read_while_holding, item: i, after_obtaining: held.len() - 1, expected: copy.clone(), got: vnet::json::show(&tmp[..k]), after_drop: false, idle_poll: true });
+                                }
+                            }
+                            idle_polls += 1;
                         }
                     };
                     if !held.is_empty() && wire.borrow().bytes_delivered != delivered_before {
@@ -310,6 +331,7 @@ fn execute(case: &Case) -> Result<(usize, bool), Damage> {
         let s = vnet::block_on(chain.send(), 4).expect("no pending").expect("send");
         drive!(s, zlink_core::reply::Result<BTag<'_>, EBC<'_>>, get_chain);
     }
+    IDLE_POLLS.with(|c| c.set(c.get() + idle_polls as u64));
     Ok((rereads, read_while_holding))
 }
 
@@ -319,12 +341,16 @@ fn check(case: &Case, rep: &mut Report, group: &str) {
         Err(p) => rep.violation("C11/panic-while-holding-items", p, case.replay()),
         Ok(Ok((n, rwh))) => {
             rep.add("item_rereads_intact", n as u64);
+            rep.add("polls_that_received_nothing_while_items_were_held_or_not", IDLE_POLLS.with(|c| c.replace(0)));
             rep.count(if rwh { "cases_with_a_read_while_items_were_held" } else { "cases_with_all_items_from_one_read" });
         }
         Ok(Err(d)) => {
             let _ = group;
             let one_read = case.chunk_of.iter().all(|c| *c == 0);
-            let sig = if d.after_drop {
+            let sig = if d.idle_poll {
+                // no byte arrived: this is not the separate-read finding, whatever the group
+                "C11/reply-stream-item-changed-by-a-poll-that-received-nothing"
+            } else if d.after_drop {
                 // nothing was asked of the stream any more: giving it up must not touch what it handed out
                 "C11/reply-stream-item-changed-when-the-stream-was-dropped"
             } else if group == "available" {
